@@ -301,6 +301,12 @@ class CallsMixin:
         r = self._create(pos, kw, node)
         r.nonneg = True
         r.note = 'zeros'
+        if r.dt == 'i' and r.dims is not None and len(r.dims) == 1 and \
+                r.dims[0] is not None \
+                and r.dims[0].as_int() is not None and \
+                0 <= r.dims[0].as_int() <= 16:
+            # a short integer vector (mode sizes, counters) is kept exactly
+            r.items = [INT(0) for _ in range(r.dims[0].as_int())]
         return r
 
     def n_ones(self, pos, kw, node, env):
@@ -708,6 +714,40 @@ class CallsMixin:
         else:
             self.site('S-squeeze', node, 'ok')
         return a.copy(dims=tuple(keep), orth=None, lay=None)
+
+    def n_expand_dims(self, pos, kw, node, env):
+        # np.expand_dims(a, k)  ==  a[:, ..(k times).., None, ...]
+        a = self.as_arr(pos[0]) if pos else ARR(None)
+        axv = self.kwarg(pos, kw, 1, 'axis')
+        if a.dims is None or axv is None or not (axv.k == 'int' and
+                                                  axv.has_const()):
+            return a.copy(dims=None, orth=None, lay=None)
+        nd = len(a.dims) + 1
+        ax = axv.c if axv.c >= 0 else axv.c + nd
+        if not 0 <= ax < nd:
+            return ARR(None, a.dt)
+        full = lambda: AV('slice', items=[None, None, None])
+        comps = [full() for _ in range(ax)] + [NONE()] + \
+            [full() for _ in range(nd - 1 - ax)]
+        return self.index(a, TUPLE(comps), node, load=True)
+
+    def n_fromiter(self, pos, kw, node, env):
+        # np.fromiter(iterable, dtype, count): a vector of the items
+        it = pos[0] if pos else None
+        dt = self.dtype_arg(self.kwarg(pos, kw, 1, 'dtype'), None)
+        cnt = self.kwarg(pos, kw, 2, 'count')
+        items, elem, n = self.I.iter_model(it, None) if it is not None \
+            else (None, None, None)
+        if items is not None:
+            r = ARR((Poly.const(len(items)),), dt)
+            if dt == 'i' and len(items) <= 16 and \
+                    all(x.k == 'int' for x in items):
+                r.items = list(items)
+            return r
+        if cnt is not None and cnt.k == 'int' and cnt.p is not None and \
+                not (cnt.has_const() and cnt.c < 0):
+            return ARR((cnt.p,), dt)
+        return ARR((n,), dt)
 
     def n_swapaxes(self, pos, kw, node, env):
         a = self.as_arr(pos[0])
